@@ -47,7 +47,7 @@ impl AssignmentIter {
 //%% @rewrite 2 /self\.cur\.clone\(\)/ => verif_clone_opt(&self.cur)
 //%% @rewrite 1 /let \(new_c, carry\) = self\.cur\.as_ref\(\)\.unwrap\(\)\.iter\(\)\.fold\(\n\s*\(Vec::new\(\), true\),\n\s*\|\(mut cur_l, carry\), cur_assgn\| \{/ => let fold__v = self.cur.as_ref().unwrap(); let mut fold__acc: (Vec<bool>, bool) = (Vec::new(), true); let mut fold__i: usize = 0; while fold__i < fold__v.len() { let cur_assgn = &fold__v[fold__i]; let (mut cur_l, carry) = fold__acc;
 //%% @rewrite 1 /\(cur_l, new_carry\)\n\s*\},\n\s*\);/ => fold__acc = (cur_l, new_carry); fold__i += 1; } let (new_c, carry) = fold__acc;
-//%% @rewrite 1 /let new_itm = cur_assgn \^ carry;/ => let new_itm = *cur_assgn != carry;
+//%% @rewrite 1 /cur_assgn \^ carry/ => (*cur_assgn != carry)
 //%% @spec
         requires it_ok(*old(self)),
         ensures
